@@ -121,10 +121,26 @@ package kzg
 //@ option functional-nested-slices
 //@ option opaque-calls
 //@ option opaque deriveGamma eval dividePolyByXminusA Commit
+//@ option inline-callees BatchOpenSinglePoint$1
+//@ ghost nbEval = 0
+//@ ghost divided = false
+//@ ghost committed = false
+//@ cut before call eval #*
+//@ + invariant[claimed-value] callarg1 == point
+//@ cut after call eval #*
+//@ + ghost nbEval = nbEval + 1
+//@ cut before call dividePolyByXminusA #1
+//@ + invariant[quotient-of-the-fold] nbEval == len(polynomials) && same(callarg0, foldedPolynomials) && callarg1 == foldedEvaluations && callarg2 == point
+//@ + ghost divided = true
+//@ cut before call Commit #1
+//@ + optional
+//@ + invariant[commits-to-the-quotient] divided && same(callarg0, resultof_dividePolyByXminusA)
+//@ + ghost committed = true
 //@ loop 0
 //@ + invariant[sizes] -1 <= rangeindex && rangeindex < len(polynomials) && nbDigests == len(digests) && nbDigests == len(polynomials) && largestPoly >= -1 && largestPoly <= len(pk.G1) && (rangeindex >= 0 ==> largestPoly >= 1) && forall(k, 0, rangeindex + 1, 1 <= len(polynomials[k]) && len(polynomials[k]) <= largestPoly)
 //@ loop 1
-//@ + invariant[spawn] 0 <= i && i <= len(polynomials) && len(res.ClaimedValues) == len(polynomials)
+//@ + havoc nbEval
+//@ + invariant[spawn] 0 <= i && i <= len(polynomials) && len(res.ClaimedValues) == len(polynomials) && nbEval == i
 //@ loop 2
 //@ + invariant[powers] 1 <= i && len(gammas) == len(polynomials) && len(foldedPolynomials) == largestPoly
 //@ loop 3
@@ -137,6 +153,7 @@ package kzg
 //@ + invariant[range] start <= j && j <= end
 //@ ensures[sizes] len(digests) != len(polynomials) ==> result1 == ErrInvalidNbDigests
 //@ ensures[empty] len(digests) == 0 ==> !isnil(result1)
+//@ ensures[opened] isnil(result1) ==> divided && nbEval == len(polynomials)
 //@ modifies nothing
 //@ end
 
